@@ -85,10 +85,14 @@ func GetGroupByData(table *Table, peer *Peer) *DataStore {
 	if !peer.isOnline() {
 		return nil
 	}
+	dataSet := peer.data.Load()
+	if dataSet == nil {
+		// the data might have been dropped meanwhile (connection lost, configuration reload)
+		return nil
+	}
 	store := NewDataStore(table, peer)
-	store.dataSet = peer.data.Load()
+	store.dataSet = dataSet
 	data := make(ResultSet, 0)
-	dataSet := store.dataSet
 	switch store.table.name {
 	case TableHostsbygroup:
 		table := dataSet.Get(TableHosts)
